@@ -3,7 +3,7 @@ table, no vtable sharing, children after parents) + a random value generator.  U
 C verifier must accept (C02 converse clause) and as the seed corpus for hostile mutations (C01).
 It records 'interesting' positions (offset slots, lengths, vtable entries, type bytes) for targeted mutation."""
 import struct
-from .c01gen import SCALARS, assign_ids
+from .c01gen import SCALARS, assign_ids, enum_values, INT_RANGE
 
 
 class Enc:
@@ -178,7 +178,9 @@ def gen_value(S, tname, rng, depth=0, maxdepth=3, p_present=0.7):
         k, ty = f['kind'], f.get('type')
         if f.get('deprecated'): continue
         if not f['required'] and rng.random() > p_present: continue
-        if k == 'scalar': vals[f['name']] = bytes(rng.getrandbits(8) for _ in range(SCALARS[ty]))
+        if k == 'scalar' and f.get('enum'): vals[f['name']] = enum_scalar(S, f, rng)
+        elif k == 'vec_scalar' and f.get('enum'): vals[f['name']] = b''.join(enum_scalar(S, f, rng) for _ in range(rng.choice([0, 1, 2, 3, 5])))
+        elif k == 'scalar': vals[f['name']] = bytes(rng.getrandbits(8) for _ in range(SCALARS[ty]))
         elif k == 'struct': vals[f['name']] = bytes(rng.getrandbits(8) for _ in range(S['structs'][ty]['size']))
         elif k == 'string': vals[f['name']] = bytes(rng.choice(b'abcxyz\0\xff') for _ in range(rng.choice([0, 1, 3, 4, 5, 8, rng.randint(0, 20)])))
         elif k == 'vec_scalar': vals[f['name']] = bytes(rng.getrandbits(8) for _ in range(SCALARS[ty] * rng.choice([0, 1, 2, 3, 5])))
@@ -203,6 +205,23 @@ def gen_value(S, tname, rng, depth=0, maxdepth=3, p_present=0.7):
         elif k == 'nested_struct':
             e = Enc(S); vals[f['name']] = e.finish_struct_root(ty, bytes(rng.getrandbits(8) for _ in range(S['structs'][ty]['size'])))
     return vals
+
+
+def enum_scalar(S, f, rng):
+    """little-endian bytes of a value of an enum-typed field: mostly a declared member of THIS schema version (for bit_flags any
+    union of members, incl. none), sometimes an arbitrary value of the underlying type (enums are open on the wire)"""
+    e = [x for x in S['enums'] if x['name'] == f['enum']][0]
+    size = SCALARS[e['type']]
+    vs = enum_values(e)
+    if rng.random() < 0.1: return bytes(rng.getrandbits(8) for _ in range(size))
+    if e['bit_flags']:
+        v = 0
+        for x in vs:
+            if rng.random() < 0.5: v |= x & ((1 << (8 * size)) - 1)
+        return v.to_bytes(size, 'little')
+    if 'first_new' in e and rng.random() < 0.35: v = vs[e['first_new']]         # the first value an older schema version does not know
+    else: v = rng.choice(vs[-2:] if rng.random() < 0.5 else vs)        # bias towards the most recently added members
+    return (v & ((1 << (8 * size)) - 1)).to_bytes(size, 'little')
 
 
 def gen_union(S, uname, rng, depth, maxdepth, p_present):
